@@ -50,7 +50,7 @@ class Runner:
         import threading
         self.lock = threading.Lock()
 
-    def run(self, files, sched=None, log=False, plain=False):
+    def run(self, files, sched=None, log=False, plain=False, stale=False):
         """copy the sources to a fresh dir, run fc there; returns dict(code, files: [[name, sha]], calls)"""
         with self.lock:
             self.n += 1
@@ -70,6 +70,15 @@ class Runner:
         if log:
             env["FOLANG_VERIF_DICTLOG"] = logf
         rc, so, se = core.sh([self.fc_plain if plain else self.fc, self.foi] + local, cwd=d, env=env, timeout=300)
+        if stale:
+            # the output files of that run are now damaged in place (same size, other letters) and fc runs again in the same directory:
+            # what it leaves must not depend on files that were there before
+            for fn in os.listdir(d):
+                if fn.startswith("gen_"):
+                    data = open(os.path.join(d, fn), "rb").read()
+                    with open(os.path.join(d, fn), "wb") as fh:
+                        fh.write(bytes((b ^ 1) if (65 <= b <= 90 or 97 <= b <= 122) else b for b in data))
+            rc, so, se = core.sh([self.fc_plain if plain else self.fc, self.foi] + local, cwd=d, env=env, timeout=300)
         outs = sorted([fn, sha(os.path.join(d, fn))] for fn in os.listdir(d) if fn.startswith("gen_"))
         calls = core.read_ndjson(logf) if log and os.path.exists(logf) else []
         shutil.rmtree(d, ignore_errors=True)
@@ -85,7 +94,7 @@ def run(ctx):
                 "non-exhaustive match with several uncovered cases, several package_info blocks, samples, and fc's own 12 sources in one "
                 "run; schedules: every schedule with at most B perturbed enumeration calls (B = 1; reverse / rotations / adjacent "
                 "transpositions of the canonical order, enumerated by TLC from the recorded call sequence; sampled by seed in quick for "
-                "long runs), full reverse / rotate / 5-20 random schedules, and 10-40 runs of the un-hooked binary. distinct = distinct "
+                "long runs), full reverse / rotate / 5-20 random schedules, 10-40 runs of the un-hooked binary, and one run over stale output files of the same size. distinct = distinct "
                 "(program, schedule); non-trivial = the schedule permutes at least one enumeration of >= 2 entries")
     R = Runner(ctx)
     progs = programs(ctx)
@@ -121,10 +130,11 @@ def run(ctx):
             jobs.append((i, "global", {"default": "rand:%d" % (ctx.seed * 1000 + k)}, False))
         for k in range(nplain if not big else 4):
             jobs.append((i, "plain", None, True))
+        jobs.append((i, "stale", None, True))
 
     def do(job):
         p, kind, sched, plain = job
-        r = R.run(progs[p][1], sched=sched, plain=plain)
+        r = R.run(progs[p][1], sched=sched, plain=plain, stale=(kind == "stale"))
         return {"prog": p, "name": progs[p][0], "kind": kind, "sched": sched or {}, "code": r["code"], "files": r["files"],
                 "canon": {"code": canon[p]["code"], "files": canon[p]["files"]}, "diag": r["diag"]}
 
@@ -165,7 +175,7 @@ def replay(ctx, rep):
         raise Infra("program not found: " + rep["program"])
     c = R.run(files, sched={"default": "canon"})
     for k in range(20 if rep["kind"] == "plain" else 1):
-        r = R.run(files, sched=rep["sched"] or None, plain=rep["kind"] == "plain")
+        r = R.run(files, sched=rep["sched"] or None, plain=rep["kind"] in ("plain", "stale"), stale=rep["kind"] == "stale")
         if r["code"] != c["code"] or r["files"] != c["files"]:
             ctx.violation("still differs", {"program": rep["program"], "sched": rep["sched"], "kind": rep["kind"]})
             return
